@@ -66,8 +66,10 @@ KNOWN_TRIGGERS = {"merge-empty-operands": _both_empty, "weighted-moments-not-nor
 def _lists_of(scn):
     """mutable sample lists inside a scenario"""
     k = scn["kind"]
-    if k in ("seq", "wunit"):
+    if k in ("seq", "wunit", "dataset"):
         return [scn["xs"]]
+    if k == "timeseries":
+        return [scn["xts"]]
     if k in ("wseq", "wscale", "wzero"):
         return [scn["xws"]]
     return list(scn["parts"]) + [scn.setdefault("then", [])]
@@ -252,7 +254,7 @@ def run(chk):
         if hit:
             continue
         g = ("merge of unweighted summaries" if s["kind"] in ("merge",) else
-             "unweighted summary" if s["kind"] == "seq" else
+             "unweighted summary" if s["kind"] in ("seq", "dataset") else
              "merge of weighted summaries" if s["kind"] == "wmerge" else
              "weights rescaled" if s["kind"] == "wscale" else "weighted summary")
         cur = groups.get(g)
